@@ -4,6 +4,7 @@ import (
 	"os"
 	"path/filepath"
 
+	ppb "github.com/google/fhir/go/proto/google/fhir/proto/r4/core/resources/patient_go_proto"
 	"github.com/verily-src/fhirpath-go/internal/fhir"
 	"google.golang.org/protobuf/proto"
 )
@@ -25,6 +26,28 @@ func LoadModelResource(name string) proto.Message {
 	res, err := ParseResource(js)
 	if err != nil {
 		Fatal("model resource %s: %v", name, err)
+	}
+	return FixModelResource(name, res)
+}
+
+// FixModelResource applies the per-resource corrections to a freshly parsed model resource (also used by cmd/annotate).
+func FixModelResource(name string, res proto.Message) proto.Message {
+	if name == "MR1" {
+		// jsonformat's unmarshaller marks a primitive whose value is the zero value (false, 0) and that has a `_field`
+		// sibling as value-less. MR1's deceasedBoolean is meant to be a genuine `false` that carries an extension
+		// (an operand form of the Boolean operators): the marker is removed, the marshaller then renders value and
+		// extension, and the annotated tree the specification reads is made from this message.
+		if p, ok := res.(interface{ GetDeceased() *ppb.Patient_DeceasedX }); ok {
+			if b := p.GetDeceased().GetBoolean(); b != nil {
+				kept := b.Extension[:0:0]
+				for _, e := range b.Extension {
+					if !isNoValueExtension(e.ProtoReflect()) {
+						kept = append(kept, e)
+					}
+				}
+				b.Extension = kept
+			}
+		}
 	}
 	return res
 }
